@@ -58,6 +58,15 @@ ModelCall(o) ==
     IN [S |-> A.S, same |-> same,
         pred |-> [exc |-> A.exc, conf |-> SetToSeq(A.S.conf), x |-> A.S.x, steps |-> A.steps,
                   log |-> A.log, eobj |-> A.eobj, eidx |-> A.eidx]]
+  ELSE IF o.op = "execute" THEN
+    LET orc == [gv |-> o.gv, cfail |-> 0, mfail |-> 0]
+        A   == ExecuteMany(c, Tr.opt, orc, M, o.clk, o.ev)
+        same == /\ o.exc = A.exc /\ o.post.conf = A.S.conf /\ o.post.x = A.S.x /\ o.eidx = A.n
+                /\ o.steps = (IF A.exc = "" THEN A.steps ELSE <<>>)
+                /\ NoGuards(o.log) = NoGuards(A.log)
+    IN [S |-> A.S, same |-> same,
+        pred |-> [exc |-> A.exc, conf |-> SetToSeq(A.S.conf), x |-> A.S.x, steps |-> A.steps, log |-> A.log,
+                  eobj |-> A.n, eidx |-> A.n]]
   ELSE [S |-> M, same |-> TRUE, pred |-> <<>>]
 
 TInit ==
